@@ -419,6 +419,9 @@ def random_history(sid, L, rnd, flavour):
         elif r < 0.45 and st["ext"]:
             cap = st["cap"]
             sc.offset(i, rnd.randint(0, cap) if flavour == "C07" else rnd.randint(0, max(0, min(cap, 60))))
+        elif r < 0.45:
+            # a library-managed buffer takes any offset: inside what it has, just beyond its capacity, several quanta beyond
+            sc.offset(i, rnd.choice([0, 7, 60, 5999, 6001, 6021, 12019, 12021, 12290, 18500, 20000, 31000, 70001]))
         elif r < 0.50 and flavour in ("C15", "C12") and len(live) < 3:
             j = max(sc.state) + 1 if sc.state else 1
             if j <= 4:
@@ -706,9 +709,9 @@ def inductive_proof():
         out["obligations"][name] = res
     shutil.rmtree(work, ignore_errors=True)
     cfg = "AsmStepEquiv"
-    rc, o = A.tlc("AsmStepEquiv", cfg=cfg, workers=4, tag="stepequiv-%d" % os.getpid(), timeout=600)
+    rc, o = A.tlc("AsmStepEquiv", cfg=cfg, workers=8, tag="stepequiv-%d" % os.getpid(), timeout=900)
     m = re.search(r"(\d+) states generated, (\d+) distinct states found", o)
-    out["equivalence_with_AsmMech_One"] = {"ok": rc == 0 and "No error has been found" in o, "distinct_states": int(m.group(2)) if m else 0, "constants": "T=4 Q=6 MAXLEN=4"}
+    out["equivalence_with_AsmMech_One"] = {"ok": rc == 0 and "No error has been found" in o, "distinct_states": int(m.group(2)) if m else 0, "constants": "T=4 Q=6 MAXLEN=4, offsets of a library-managed buffer up to three quanta beyond its capacity"}
     if not out["equivalence_with_AsmMech_One"]["ok"]:
         out["obligations"]["AsmStepEquiv"] = "Error"
         log += o[-1500:]
@@ -925,6 +928,26 @@ def c08_boundary(L, rnd, tier):
         sc.offset(1, 9000)
         sc.asm(1, small[:1], [L.text[x] for x in small[:1]])
         out.append(sc)
+    # ... and start offsets BEYOND the capacity of a library-managed buffer (fresh: 6020 bytes; grown: 12020), from one byte to many
+    # growth quanta beyond it: the buffer has to grow to the position before the first write
+    for off in (6001, 6021, 12001, 12019, 12020, 12021, 12280, 12289, 18021, 20000, 100000, 250000):
+        for mode in ("plain", "fit", "count"):
+            for grown in (False, True):
+                if tier == "quick" and (off + len(mode) + grown) % 2:
+                    continue
+                sc = Script("C08-oo%d" % n); n += 1
+                sc.create(1, "int", 0)
+                if grown:
+                    body = build(9000)
+                    sc.asm(1, body, [L.text[x] for x in body])
+                if mode == "fit":
+                    sc.chunk(1, 16)
+                sc.offset(1, off)
+                sc.asm(1, small, [L.text[x] for x in small], count=(16 if mode == "count" else None))
+                sc.asm(1, small[:1], [L.text[x] for x in small[:1]])
+                sc.offset(1, off + 7000)
+                sc.asm(1, small[:2], [L.text[x] for x in small[:2]])
+                out.append(sc)
     # executable programs: nops, then mov rax, v ; ret, across a growth
     if tailkey:
         for mult in mults:
